@@ -280,29 +280,140 @@ func (tf *tagFilter) Init(name, key, value []byte, isNegative, isRegexp bool) er
 }
 
 func (tf *tagFilter) InfluxRegrep() (regexpCacheValue, error) {
-	var expr []byte
-	prefix := tf.value
 	if tf.isRegexp {
-		prefix, expr = getRegexpPrefix(tf.value)
-		if len(expr) == 0 {
-			tf.value = append(tf.value[:0], prefix...)
-			// select /Ubuntu/ should return match value which contain Ubuntu
-			tf.reSuffixMatch = func(b []byte) bool {
-				return bytes.Contains(b, tf.value)
+		return regexpCacheValue{}, tf.initInfluxRegexp()
+	}
+	tf.prefix = marshalTagValueNoTrailingTagSeparator(tf.prefix, tf.value)
+	// tf contains plain value without regexp.
+	// Add empty orSuffix in order to trigger fast path for orSuffixes
+	// during the search for matching metricIDs.
+	tf.isEmptyMatch = len(tf.value) == 0
+	return regexpCacheValue{}, nil
+}
+
+// initInfluxRegexp prepares tf for an InfluxQL regular expression. InfluxQL matches a regular expression anywhere in the
+// tag value (Go regexp.Match, the way the row-level filter and doPrune evaluate it) unless the expression anchors itself
+// with ^ and $. The tag values of the key are scanned and every one is matched with the compiled expression; the scan is
+// narrowed to a literal prefix only when the expression starts with ^ followed by a literal, which is exact.
+// Exact-value lookups (alternations, character classes) are valid for whole-value matching only: they are used when the
+// expression anchors itself on both sides (anchoredOrValues).
+func (tf *tagFilter) initInfluxRegexp() error {
+	re, err := regexp.Compile(string(tf.value))
+	if err != nil {
+		return fmt.Errorf("invalid regexp %q: %w", tf.value, err)
+	}
+	tf.orSuffixes = tf.orSuffixes[:0]
+	tf.isEmptyMatch = re.MatchString("")
+	if vals := anchoredOrValues(string(tf.value)); len(vals) > 0 {
+		// ^(a|b|c)$, ^web-[0-9]$, ^literal$: the expression anchors itself on both sides and denotes a short list of whole
+		// values, which are resolved with direct lookups (the items carry the marshaled form of a value).
+		suffixes := make([]string, 0, len(vals))
+		for _, v := range vals {
+			suffixes = append(suffixes, string(marshalTagValueNoTrailingTagSeparator(nil, []byte(v))))
+		}
+		tf.orSuffixes = append(tf.orSuffixes, suffixes...)
+		tf.reSuffixMatch, tf.matchCost = newMatchFuncForOrSuffixes(suffixes)
+		return nil
+	}
+	prefix := anchoredLiteralPrefix(string(tf.value))
+	tf.prefix = marshalTagValueNoTrailingTagSeparator(tf.prefix, prefix)
+	tf.matchCost = reMatchCost
+	tf.reSuffixMatch = func(b []byte) bool {
+		// b is the marshaled remainder of the tag value after the prefix
+		if bytes.IndexByte(b, escapeChar) >= 0 {
+			b = unmarshalTagValueNoSeparator(b)
+		}
+		if len(prefix) == 0 {
+			return re.Match(b)
+		}
+		v := make([]byte, 0, len(prefix)+len(b))
+		v = append(v, prefix...)
+		v = append(v, b...)
+		return re.Match(v)
+	}
+	return nil
+}
+
+// anchoredOrValues returns the values an expression of the form ^X$ matches when X is a short alternation of literals,
+// character classes and their concatenations (getOrValuesExt), else nil. Such an expression matches whole values only.
+func anchoredOrValues(expr string) []string {
+	sre, err := syntax.Parse(expr, syntax.Perl)
+	if err != nil {
+		return nil
+	}
+	sre = sre.Simplify()
+	n := len(sre.Sub)
+	if sre.Op != syntax.OpConcat || n < 3 || sre.Sub[0].Op != syntax.OpBeginText || sre.Sub[n-1].Op != syntax.OpEndText {
+		return nil
+	}
+	inner := &syntax.Regexp{Op: syntax.OpConcat, Sub: append([]*syntax.Regexp{}, sre.Sub[1:n-1]...)}
+	return getOrValuesExt(inner)
+}
+
+// anchoredLiteralPrefix returns lit when expr has the form ^lit..., else nil.
+func anchoredLiteralPrefix(expr string) []byte {
+	sre, err := syntax.Parse(expr, syntax.Perl)
+	if err != nil {
+		return nil
+	}
+	sre = sre.Simplify()
+	if sre.Op != syntax.OpConcat || len(sre.Sub) < 2 || sre.Sub[0].Op != syntax.OpBeginText || !isLiteral(sre.Sub[1]) {
+		return nil
+	}
+	lit := sre.Sub[1]
+	for lit.Op == syntax.OpCapture {
+		lit = lit.Sub[0]
+	}
+	return []byte(string(lit.Rune))
+}
+
+// unmarshalTagValueNoSeparator reverts marshalTagValue (without the trailing separator).
+func unmarshalTagValueNoSeparator(b []byte) []byte {
+	dst := make([]byte, 0, len(b))
+	for i := 0; i < len(b); i++ {
+		if b[i] == escapeChar && i+1 < len(b) {
+			switch b[i+1] {
+			case '0':
+				dst = append(dst, escapeChar)
+			case '1':
+				dst = append(dst, tagSeparatorChar)
+			case '2':
+				dst = append(dst, kvSeparatorChar)
+			default:
+				dst = append(dst, b[i], b[i+1])
 			}
-			return regexpCacheValue{}, nil
+			i++
+			continue
+		}
+		dst = append(dst, b[i])
+	}
+	return dst
+}
+
+// regexMatchesEverything reports whether re matches every string: it matches the empty string and contains no position
+// assertion (an expression like ^$ matches the empty string but nothing else).
+func regexMatchesEverything(re *regexp.Regexp) bool {
+	if !re.MatchString("") {
+		return false
+	}
+	sre, err := syntax.Parse(re.String(), syntax.Perl)
+	if err != nil {
+		return false
+	}
+	return !hasPositionAssertion(sre)
+}
+
+func hasPositionAssertion(sre *syntax.Regexp) bool {
+	switch sre.Op {
+	case syntax.OpBeginLine, syntax.OpEndLine, syntax.OpBeginText, syntax.OpEndText, syntax.OpWordBoundary, syntax.OpNoWordBoundary:
+		return true
+	}
+	for _, sub := range sre.Sub {
+		if hasPositionAssertion(sub) {
+			return true
 		}
 	}
-	tf.prefix = marshalTagValueNoTrailingTagSeparator(tf.prefix, prefix)
-	if !tf.isRegexp {
-		// tf contains plain value without regexp.
-		// Add empty orSuffix in order to trigger fast path for orSuffixes
-		// during the search for matching metricIDs.
-		tf.isEmptyMatch = len(prefix) == 0
-		return regexpCacheValue{}, nil
-	}
-	rcv, err := getRegexpFromCache(expr)
-	return rcv, err
+	return false
 }
 
 func (tf *tagFilter) OpGeminiRegrep() (*regexpCacheValue, error) {
